@@ -60,16 +60,17 @@ type (
 
 func newSyslogSink(cfg *syslogSinkConfig) (*syslogSink, error) {
 	ms, err := cfg.GetSyslogMsgSchema()
-	if err == nil {
-		slog, err := syslog.NewLogger(&cfg.Config)
-		if err == nil {
-			return &syslogSink{
-				slog: slog,
-				schm: ms,
-			}, nil
-		}
+	if err != nil {
+		return nil, err
 	}
-	return nil, err
+	slog, err := syslog.NewLogger(&cfg.Config)
+	if err != nil {
+		return nil, err
+	}
+	return &syslogSink{
+		slog: slog,
+		schm: ms,
+	}, nil
 }
 
 // OnEvent sends the events via syslog to the destination
